@@ -309,7 +309,7 @@ func Apply(g *gitx.Git, dir string, e Edit) error {
 // Materialize copies the base to dir, switches it to commit cur on branch "cur",
 // registers the base as remote "origin" and applies the edits.
 func (b *Base) Materialize(g *gitx.Git, dir string, cur int, edits []Edit) error {
-	if err := gitx.CopyDir(b.Dir, dir); err != nil {
+	if err := CopyTree(b.Dir, dir); err != nil {
 		return err
 	}
 	if res := g.Run(dir, "checkout", "-q", "-f", "-B", "cur", fmt.Sprintf("c%d", cur)); !res.OK() {
@@ -516,4 +516,38 @@ func Losses(pre, post Snap) []Loss {
 		}
 	}
 	return out
+}
+
+// CopyTree copies a directory tree in-process (no child process), preserving
+// modes, modification times and symlinks – enough for git's stat cache to stay
+// as valid as after `cp -a`.
+func CopyTree(src, dst string) error {
+	return filepath.Walk(src, func(p string, info os.FileInfo, err error) error {
+		if err != nil {
+			return err
+		}
+		rel, _ := filepath.Rel(src, p)
+		q := filepath.Join(dst, rel)
+		switch {
+		case info.IsDir():
+			return os.MkdirAll(q, info.Mode().Perm()|0o700)
+		case info.Mode()&os.ModeSymlink != 0:
+			t, err := os.Readlink(p)
+			if err != nil {
+				return err
+			}
+			return os.Symlink(t, q)
+		case info.Mode().IsRegular():
+			b, err := os.ReadFile(p)
+			if err != nil {
+				return err
+			}
+			if err := os.WriteFile(q, b, info.Mode().Perm()); err != nil {
+				return err
+			}
+			os.Chmod(q, info.Mode().Perm())
+			return os.Chtimes(q, info.ModTime(), info.ModTime())
+		}
+		return nil
+	})
 }
